@@ -3,6 +3,8 @@ package main
 import (
 	"fmt"
 	"go/types"
+
+	"golang.org/x/tools/go/ssa"
 )
 
 // subGoal is one conjunct of a proof goal together with the local hypotheses
@@ -89,6 +91,31 @@ func (e *SpecEnv) collectGoals(x SExpr, hyps []Term, out *[]subGoal) {
 	}
 	g := e.boolTerm(e.Eval(x))
 	*out = append(*out, subGoal{Hyps: hyps, Goal: g, Src: specString(x)})
+}
+
+// lookupAddr resolves &name for a local variable that lives in memory (an
+// Alloc with that name dominating the program point).
+func (f *Frame) lookupAddr(name string, at *ssa.BasicBlock) (Val, bool) {
+	var best *ssa.Alloc
+	bestDepth := -1
+	for _, b := range f.fn.Blocks {
+		if at != nil && !(b == at || b.Dominates(at)) {
+			continue
+		}
+		d := domDepth(b)
+		for _, in := range b.Instrs {
+			if a, ok := in.(*ssa.Alloc); ok && a.Comment == name {
+				if _, bound := f.env[a]; bound && d >= bestDepth {
+					best = a
+					bestDepth = d
+				}
+			}
+		}
+	}
+	if best == nil {
+		return Val{}, false
+	}
+	return f.env[best], true
 }
 
 // addGoals turns a contract clause into one obligation per conjunct.
